@@ -78,7 +78,7 @@ def check(ctx):
             diff = [i for i in ids if a[i] != b_[i]]
             per_env[env]["different"] += len(diff)
             if diff:
-                sample = diff[:: max(1, len(diff) // 600)][:600]
+                sample = diff if len(diff) <= 20000 else diff[:: len(diff) // 20000 + 1]   # every differing case is examined (a stride only beyond 20000)
                 tag = env.replace("=", "").replace(",", "_")
                 d0 = details(ctx, dumps, sample, None, "det-r%d-default-%s" % (ri, tag))
                 d1 = details(ctx, dumps, sample, env, "det-r%d-%s" % (ri, tag))
@@ -123,5 +123,5 @@ def check(ctx):
     return vf.finish(ctx, "model_checking", cov, assumptions=[
         "the bounded universe of C01 (types, documents, configurations); the decoded value is compared through its deterministic rendering",
         "error texts and error types are not compared (the two implementations use different error types by design), only error-or-not",
-        "at most 600 differing cases per environment and round are replayed with details; every differing case counts in per_env.different",
+        "every differing case is replayed with details (a stride only beyond 20000 per environment and round)",
     ])
